@@ -181,7 +181,14 @@ def sym_hash(x):
         if isinstance(x, SInt):
             x.need_exact('hash')
         return SInt(f(core.term_of(x)))
-    return builtins.hash(x)
+    if x is None or isinstance(x, (str, bytes, tuple, float, frozenset, type)):
+        return builtins.hash(x)
+    h = getattr(type(x), '__hash__', None)
+    if h is None:
+        raise TypeError('unhashable type: %r' % type(x).__name__)
+    if h is object.__hash__:
+        return builtins.hash(x)
+    return h(x)      # may be an SInt in 'uf' mode; builtins.hash() would reject that
 
 
 def sym_len(x):
@@ -369,7 +376,14 @@ class SymStruct(object):
         return SBytes(items)
 
 
+def sym_is(x, const):
+    if isinstance(x, SBool):
+        return bool(x) is const
+    return x is const
+
+
 SHIMS = {
+    '__sym_is__': sym_is,
     '__sym_int__': sym_int,
     '__sym_type__': sym_type,
     '__sym_isinstance__': sym_isinstance,
@@ -412,6 +426,19 @@ class Transformer(ast.NodeTransformer):
             return ast.copy_location(
                 ast.Call(func=ast.Name(id='__sym_getitem__', ctx=ast.Load()), args=[node.value, node.slice], keywords=[]),
                 node)
+        return node
+
+    def visit_Compare(self, node):
+        self.generic_visit(node)
+        # `x is False` / `x is not True` ...: identity tests against the boolean singletons must see
+        # through symbolic truth values
+        if len(node.ops) == 1 and isinstance(node.ops[0], (ast.Is, ast.IsNot)) and \
+                isinstance(node.comparators[0], ast.Constant) and isinstance(node.comparators[0].value, bool):
+            call = ast.Call(func=ast.Name(id='__sym_is__', ctx=ast.Load()),
+                            args=[node.left, node.comparators[0]], keywords=[])
+            if isinstance(node.ops[0], ast.IsNot):
+                call = ast.UnaryOp(op=ast.Not(), operand=call)
+            return ast.copy_location(call, node)
         return node
 
     def visit_BinOp(self, node):
